@@ -98,7 +98,8 @@ class RealProg:
                     # a structural counterexample carries no values: generic, pairwise different local Jacobians (zeros would hide every fault that
                     # permutes, drops or duplicates rows / columns)
                     oi = spec["ops"].index(o)
-                    M = 0.37 + 0.29 * oi + 0.013 * k + 0.0017 * i + 0.11 * np.arange(rows * cols, dtype=float).reshape(rows, cols) * (1 + 0.07 * oi)
+                    import _lib as _L
+                    M = np.zeros((rows, cols)) if _L.FILL[0] == "zeros" else 0.37 + 0.29 * oi + 0.013 * k + 0.0017 * i + 0.11 * np.arange(rows * cols, dtype=float).reshape(rows, cols) * (1 + 0.07 * oi)
                 W[(k, i)] = torch.tensor(np.asarray(arr(M), dtype=float).reshape(rows, cols), dtype=dtype)
             meta = dict(W=W, out_shapes=[tuple(s) for _, s in o["outs"]], saves=bool(o.get("saves", True)), dtype=dtype)
             outs = _FUNCS[bool(o.get("vmap_ok", True))].apply(meta, *ins)
